@@ -221,8 +221,7 @@ def load_yarl(src_dir, instrumented, backend, lowered_source=None):
         os.environ.pop("YARL_NO_EXTENSIONS", None)
     try:
         importlib.import_module("yarl")
-        if instrumented or backend == "py":
-            importlib.import_module("yarl._quoting_py")
+        importlib.import_module("yarl._quoting_py")
         mods = {k: v for k, v in sys.modules.items() if k == "yarl" or k.startswith("yarl.")}
         if backend == "c" and "yarl._quoting_c" not in mods:
             raise ImportError("compiled/lowered backend requested but yarl._quoting_c did not load")
